@@ -169,6 +169,43 @@ func execKeys(a []string) Result {
 		}
 		chk(err == nil && dv.DID() == pv.DID(), "verifier decode(encode)")
 	}
+	// a decoded value is a value: it does not change when the caller reuses the buffer it was read from
+	scribble := func(b []byte) {
+		for i := range b {
+			b[i] ^= 0xa5
+		}
+	}
+	{
+		buf := append([]byte{}, ka.Encode()...)
+		var s2 principal.Signer
+		if isRSA {
+			s2, err = rsasigner.Decode(buf)
+		} else {
+			s2, err = edsigner.Decode(buf)
+		}
+		if err == nil {
+			scribble(buf)
+			chk(bytes.Equal(s2.Encode(), ka.Encode()) && s2.DID() == ka.DID(), "a decoded signer changes when the buffer it was decoded from is reused")
+			chk(ka.Verifier().Verify(msg, s2.Sign(msg)), "a decoded signer signs with another key after its source buffer is reused")
+		}
+		vb := append([]byte{}, ka.Verifier().Encode()...)
+		var v2 principal.Verifier
+		if isRSA {
+			v2, err = rsaverifier.Decode(vb)
+		} else {
+			v2, err = edverifier.Decode(vb)
+		}
+		if err == nil {
+			scribble(vb)
+			chk(bytes.Equal(v2.Encode(), ka.Verifier().Encode()) && v2.DID() == ka.DID(), "a decoded verifier changes when the buffer it was decoded from is reused")
+			chk(v2.Verify(msg, ka.Sign(msg)), "a decoded verifier rejects its key's signature after its source buffer is reused")
+		}
+		db := append([]byte{}, ka.DID().Bytes()...)
+		if dd, err := did.Decode(db); err == nil {
+			scribble(db)
+			chk(dd == ka.DID() && dd.String() == ka.DID().String(), "a decoded DID changes when the buffer it was decoded from is reused")
+		}
+	}
 	d2, err := did.Parse(ka.DID().String())
 	chk(err == nil && d2 == ka.DID(), "did parse(string)")
 	d3, err := did.Decode(ka.DID().Bytes())
